@@ -186,6 +186,10 @@ pub fn check_greeting(case: &GreetingCase) -> CaseResult {
 /// at and around the two response boundaries.
 #[derive(Debug, Clone, Serialize, Deserialize)]
 pub struct MegaCut {
+    /// every line has a field name of its own (the connection's name table grows by `lines` entries
+    /// within one receive call)
+    #[serde(default)]
+    pub distinct: bool,
     pub lines: usize,
     /// 0: complete stream, 1: right after the first response, 2: two bytes into the second response,
     /// 3: three bytes before the end (inside the second response's OK line), 4: inside the first response
@@ -197,7 +201,12 @@ pub fn check_mega(case: &MegaCut) -> CaseResult {
     let mut r = CaseResult::new();
     let mut stream = Vec::with_capacity(case.lines * 5 + 16);
     for i in 0..case.lines {
-        stream.extend_from_slice(if i % 2 == 0 { b"a: b\n" } else { b"c: d\n" });
+        if case.distinct {
+            let c = |d: usize| (b'a' + (d % 26) as u8) as char;
+            stream.extend_from_slice(format!("k{}{}{}{}{}: b\n", c(i / 456_976), c(i / 17_576), c(i / 676), c(i / 26), c(i)).as_bytes());
+        } else {
+            stream.extend_from_slice(if i % 2 == 0 { b"a: b\n" } else { b"c: d\n" });
+        }
     }
     stream.extend_from_slice(b"OK\n");
     let first_end = stream.len();
@@ -207,6 +216,8 @@ pub fn check_mega(case: &MegaCut) -> CaseResult {
         1 => (first_end, 1, Terminal::CleanEof),
         2 => (first_end + 2, 1, eof()),
         3 => (stream.len() - 3, 1, eof()),
+        // between two lines of the first response (all of its field lines received, not its OK)
+        5 => (first_end - 3, 0, eof()),
         _ => (first_end - 4, 0, eof()),
     };
     r.nontrivial();
@@ -268,15 +279,21 @@ pub fn property(tier: Tier) -> Property {
             }),
             Box::new(crate::core::ExhaustivePart {
                 name: "mega_response_cuts",
-                rule: "one response of N short lines (N in {70000, 200000, 300000}; thorough + 1000000) delivered in one piece (the receive buffer doubles up to the whole stream) followed by a small response; stream complete / cut right after the first response / 2 bytes into the second / 3 bytes before the end / inside the first x {blocking, async}: the complete responses before the cut must be delivered, then a clean end exactly on the two boundaries",
+                rule: "one response of N short lines (N in {70000, 200000, 300000}; thorough + 1000000) delivered in one piece (the receive buffer doubles up to the whole stream) followed by a small response, and the same with N distinct field names (N = 70000; thorough up to 1200000) under all five ways of calling receive incl. the interrupted ones; stream complete / cut right after the first response / 2 bytes into the second / 3 bytes before the end / inside the last line of the first / between the last field line of the first and its OK x {blocking, async}: the complete responses before the cut must be delivered, then a clean end exactly on the two boundaries",
                 space: Box::new(|t: Tier| {
                     let mut sizes = vec![70_000usize, 200_000, 300_000];
                     if t == Tier::Thorough {
                         sizes.push(1_000_000);
                     }
-                    Box::new(sizes.into_iter().flat_map(|lines| {
-                        (0..5u8).flat_map(move |cut| [Flavour::Blocking, Flavour::Async].into_iter().map(move |flavour| MegaCut { lines, cut, flavour }))
-                    }))
+                    let distinct_sizes = if t == Tier::Thorough { vec![70_000usize, 300_000, 1_200_000] } else { vec![70_000usize] };
+                    Box::new(
+                        sizes
+                            .into_iter()
+                            .flat_map(|lines| (0..6u8).flat_map(move |cut| [Flavour::Blocking, Flavour::Async].into_iter().map(move |flavour| MegaCut { distinct: false, lines, cut, flavour })))
+                            .chain(distinct_sizes.into_iter().flat_map(|lines| {
+                                (0..6u8).flat_map(move |cut| crate::streamlab::ALL_FLAVOURS.into_iter().map(move |flavour| MegaCut { distinct: true, lines, cut, flavour }))
+                            })),
+                    )
                 }),
                 check: Box::new(check_mega),
             }),
